@@ -815,9 +815,55 @@ func (m *Machine) goStmt(fnv Value, args []Value, site ssa.Instruction) {
 	m.unsupported("go statement (sequential mode)")
 }
 
+// selectOp: sequential semantics. The first ready case is taken (Go chooses pseudo-randomly among
+// ready cases; harnesses that depend on that choice must model it explicitly).
 func (m *Machine) selectOp(fr *frame, in *ssa.Select) Value {
-	m.unsupported("select")
-	return nil
+	c := m.ctx
+	chosen := -1
+	var recvVal Value
+	recvOk := false
+	for i, st := range in.States {
+		ch, _ := fr.get(st.Chan).(*ChanV)
+		if ch == nil {
+			continue
+		}
+		if st.Dir == types.SendOnly {
+			if ch.Closed {
+				m.goPanic("send on closed channel")
+			}
+			if len(ch.Buf) < ch.Cap {
+				ch.Buf = append(ch.Buf, copyVal(fr.get(st.Send)))
+				chosen = i
+				break
+			}
+		} else {
+			if len(ch.Buf) > 0 {
+				recvVal, recvOk = ch.Buf[0], true
+				ch.Buf = ch.Buf[1:]
+				chosen = i
+				break
+			}
+			if ch.Closed {
+				recvVal, recvOk = m.zero(st.Chan.Type().Underlying().(*types.Chan).Elem()), false
+				chosen = i
+				break
+			}
+		}
+	}
+	if chosen < 0 && in.Blocking {
+		m.unsupported("blocking select in sequential mode")
+	}
+	res := TupleV{c.BV(uint64(int64(chosen)), 64), c.Bool(recvOk)}
+	for i, st := range in.States {
+		if st.Dir == types.RecvOnly {
+			if i == chosen {
+				res = append(res, recvVal)
+			} else {
+				res = append(res, m.zero(st.Chan.Type().Underlying().(*types.Chan).Elem()))
+			}
+		}
+	}
+	return res
 }
 
 func (m *Machine) chanSend(ch *ChanV, v Value) {
